@@ -9,6 +9,7 @@ from ..core import FUNC, call_attr, calls_in, const, dotted, is_const, kwarg, no
 from .c01 import _fmt_in
 
 EXPLANATION = [
+    'C02.usb-transfers-untimed: the inbound USB transfers set up in UsbPacketSource.start() have no timeout (the completion callback re-submits only completed transfers).',
     'C02.feed-once: outside PacketParser, a feed_data() call inside a loop is fed with data received in that iteration, never with a re-slice of a chunk already fed.',
     "C02.reset-first: in the server transports' new-client hooks only log calls and plain assignments precede parser.reset() (nothing that can raise: the event loop would log the failure and keep feeding a parser that was not reset).",
     'C02.external-reset: outside PacketParser itself, parser.reset() is called only where a server transport accepts a new client (connection_made / on_connection): no per-message reset.',
@@ -487,7 +488,28 @@ def feed_once(ctx):
     R.check(n >= 4, rule, 'bumble.transport | feed_data call sites', f'{n}', f'only {n} found')
 
 
+def usb_transfers_untimed(ctx):
+    """The USB source re-submits an inbound transfer only when it completed: an inbound transfer therefore has no timeout
+    (a timed-out transfer takes the "not completed" path - the transport is declared lost and the rest of the stream,
+    including the tail of a packet already half-buffered, is never read)."""
+    R, p = ctx.r, ctx.p
+    rule = 'C02.usb-transfers-untimed'
+    fn = p.find('bumble.transport.usb.open_usb_transport')
+    m = p.modules.get('bumble.transport.usb')
+    if m is None:
+        R.bad(rule, 'bumble.transport.usb', 'anchor missing')
+        return
+    n = 0
+    for cls_fn in [x for x in ast.walk(m.tree) if isinstance(x, FUNC) and x.name == 'start']:
+        for c in [x for x in calls_in(cls_fn) if call_attr(x) in ('setBulk', 'setInterrupt', 'setIsochronous')]:
+            n += 1
+            t = kwarg(c, 'timeout')
+            R.check(t is None or (is_const(t) and const(t) == 0), rule, f'{p.qual_of(c)} | {norm(c.func)}', 'no timeout', f'`{norm(c.func)}(..., timeout={norm(t) if t is not None else None})`: after an idle period the transfer completes as TIMED_OUT, which the callback treats as a lost transport and does not re-submit - the rest of that endpoint\'s stream is never read', f'{m.rel}:{c.lineno}')
+    R.check(n >= 3, rule, 'bumble.transport.usb | inbound transfers', f'{n} transfers set up in start()', f'only {n} found')
+
+
 RULES = [
+    ('C02.usb-transfers-untimed', usb_transfers_untimed),
     ('C02.feed-once', feed_once),
     ('C02.reset-first', reset_first),
     ('C02.external-reset', external_reset),
